@@ -13,11 +13,12 @@ import (
 
 // a flow script: a short prelude ending in a target request
 type c18script struct {
-	Name  string
-	Email bool                           // needs TwoFactorEmailAuthRequired
-	Build func(s *sim.Sim) []*sim.Action // last action is the target
-	Setup func(s *sim.Sim)               // extra seeding before the script (optional)
-	Slow  bool                           // target pays cost-10 bcrypt x10: fewer error kinds
+	APIMode bool // always run in JSON/API mode (also in the quick tier)
+	Name    string
+	Email   bool                           // needs TwoFactorEmailAuthRequired
+	Build   func(s *sim.Sim) []*sim.Action // last action is the target
+	Setup   func(s *sim.Sim)               // extra seeding before the script (optional)
+	Slow    bool                           // target pays cost-10 bcrypt x10: fewer error kinds
 }
 
 func withCls2(a *sim.Action, c string) *sim.Action { a.Cls2 = c; return a }
@@ -86,6 +87,12 @@ var c18Scripts = []c18script{
 	}},
 	{Name: "protected-route-anonymous", Build: func(s *sim.Sim) []*sim.Action {
 		return []*sim.Action{act("visit", 0, -9, "", "route", "/protected/plain")}
+	}},
+	{Name: "locked-session-on-a-guarded-route", APIMode: true, Build: func(s *sim.Sim) []*sim.Action {
+		return []*sim.Action{act("login", 0, 0, "ok"), act("admin_lock", 0, 0, ""), act("visit", 0, -9, "", "route", "/protected/lockonly")}
+	}},
+	{Name: "unconfirmed-session-on-a-guarded-route", APIMode: true, Build: func(s *sim.Sim) []*sim.Action {
+		return []*sim.Action{act("login", 0, 0, "ok"), act("admin_startconfirm", 0, 0, ""), act("visit", 0, -9, "", "route", "/protected/confirmonly")}
 	}},
 	{Name: "totp-validate-ok", Build: func(s *sim.Sim) []*sim.Action {
 		return []*sim.Action{act("login", 0, 1, "ok"), act("totp_validate", 0, -9, "ok")}
@@ -302,7 +309,7 @@ func c18Unit(c *RunCtx, unit int) {
 	nS := len(c18Scripts)
 	script := c18Scripts[unit%nS]
 	err500 := (unit/nS)%2 == 1
-	jsonMode := (unit/(2*nS))%2 == 1
+	jsonMode := (unit/(2*nS))%2 == 1 || script.APIMode // (the guard's redirect goes through the renderer only for API requests)
 	c.Stats.Histories++
 	base, _, _, serr := c18Run(c, script, err500, jsonMode, unit, -1, nil)
 	if serr != "" {
@@ -366,6 +373,14 @@ func c18Unit(c *RunCtx, unit int) {
 			if rec.Panic != "" {
 				report(vio("C18", fmt.Sprintf("panic|%s|%s|%s", script.Name, call.Op, kindName), "%s: a %s error from %s made the request panic: %s", script.Name, kindName, call.Op, trunc(rec.Panic, 160)))
 				continue
+			}
+			// (1') never weaken security state: whatever failed, the page behind the lock / confirm guard was
+			// not served to a session whose user is locked / unconfirmed
+			if g, ok := guardedRoutes[rec.Probe.Route]; ok && rec.Probe.Ran {
+				if u := rec.Before.Users[rec.Probe.UID]; u != nil && ((g[0] && u.Locked.After(rec.Now)) || (g[1] && !u.Confirmed)) {
+					report(vio("C18", fmt.Sprintf("guarded-page-served-after-fault|%s|%s", script.Name, call.Op), "%s: with a %s failure at %s the page behind the lock/confirm guard was served to %q (locked=%v confirmed=%v)", script.Name, kindName, call.Op, u.PID, u.Locked.After(rec.Now), u.Confirmed))
+					continue
+				}
 			}
 			erroredOut := rec.HandlerErr != "" || rec.Status >= 500 || rec.AdminErr != ""
 			// (2) a failed write the flow relied on must not be reported as success
@@ -451,7 +466,7 @@ func c18Unit(c *RunCtx, unit int) {
 func init() {
 	register(&Check{
 		ID: "C18", Level: "fault_enumeration", Exhaustive: true,
-		Rule:  "49 flow scripts (every route of every module in its main states, the remember / access / lock / confirm middlewares, the programmatic UpdatePassword, Lock, Unlock, StartConfirmation) x {silent default error handler, handler that writes a 500} (x form/JSON in the thorough tier). Each script is first run fault-free to record the ordered backend calls of its target request (storer methods, hasher, view renderer, SMS sender); then for EVERY call index and every applicable error kind (generic; not-found on loads/saves; token-not-found; user-found) the world is rebuilt, the prelude replayed and that one fault injected. Oracles: no panic; a failed write inside a route handler or programmatic call ends in an error outcome (handler error / 5xx / returned error) and never shows success markers; SMS/renderer/hasher failures end in an error outcome; no session for the target account when the faulted call was the consumption of a one-time credential; afterwards every credential the ledger holds as spent or dead is presented again and judged by the C01/C05/C12 monitors. exhaustive=true refers to the call-index x error-kind grid of the listed scripts. distinct_nontrivial = distinct (script#call:op, error kind, handler kind, mode, where, outcome) signatures.",
+		Rule:  "49 flow scripts (every route of every module in its main states, the remember / access / lock / confirm middlewares, the programmatic UpdatePassword, Lock, Unlock, StartConfirmation) x {silent default error handler, handler that writes a 500} (x form/JSON in the thorough tier). Each script is first run fault-free to record the ordered backend calls of its target request (storer methods, hasher, view renderer, SMS sender); then for EVERY call index and every applicable error kind (generic; not-found on loads/saves; token-not-found; user-found) the world is rebuilt, the prelude replayed and that one fault injected. Oracles: no panic; a failed write inside a route handler or programmatic call ends in an error outcome (handler error / 5xx / returned error) and never shows success markers; SMS/renderer/hasher failures end in an error outcome; no session for the target account when the faulted call was the consumption of a one-time credential; afterwards every credential the ledger holds as spent or dead is presented again and judged by the C01/C05/C12 monitors. exhaustive=true refers to the call-index x error-kind grid of the listed scripts. Scripts with a lock / confirm guard in front of a locked / unconfirmed session run in API mode (the guard's redirect goes through the renderer); rule (1'): whatever failed, the guarded page is not served to such a user. distinct_nontrivial = distinct (script#call:op, error kind, handler kind, mode, where, outcome) signatures.",
 		Units: func(t string) int { return tierN(t, 2*len(c18Scripts), 4*len(c18Scripts)) },
 		Run:   c18Unit,
 		Floors: func(t string) map[string]int {
